@@ -228,8 +228,10 @@ Refill(q, p, out, tm, a, g, w) ==
   IF q = <<>> \/ Len(p) >= w THEN [q |-> q, p |-> p, out |-> out, tm |-> tm]
   ELSE LET r == Head(q) IN
        IF r.qos = 0 THEN Refill(Tail(q), p, Append(out, W(a, g, PktPublish(r, 0))), tm, a, g, w)
-       ELSE LET t == Timer("pub", a, g, r.id, now + PubDelay(r, r.n + 1), "") IN
-            Refill(Tail(q), Append(p, [r EXCEPT !.n = @ + 1, !.live = TRUE]),
+       ELSE \* the retry interval is created now, from the settings of the protocol that first sends the message
+            LET r2 == IF "interval_at_publish" \in Bugs THEN r ELSE [r EXCEPT !.initT = conn[a].initT, !.bw = conn[a].bw, !.factor = conn[a].factor]
+                t == Timer("pub", a, g, r.id, now + PubDelay(r2, r.n + 1), "") IN
+            Refill(Tail(q), Append(p, [r2 EXCEPT !.n = @ + 1, !.live = TRUE]),
                    out \o <<Arm(t), W(a, g, PktPublish(r, r.dup))>>, tm \cup {t}, a, g, w)
 \* the defect of the pinned commit: the number of messages moved is computed once, QoS 0 messages use up slots
 RECURSIVE RefillN(_, _, _, _, _, _, _)
@@ -571,6 +573,12 @@ Lost(a, reason) ==
      /\ fx' = [i \in 1..Len(kt) |-> Cancel(kt[i])] \o (IF k.clean = 1 THEN PurgeFx(s1, reason) ELSE <<>>)
               \o (IF k.hDisc = 1 THEN <<Arm(dt)>> ELSE <<>>)
      /\ UNCHANGED <<nextId, nd, now>>
+
+\* test-only: the harness places the identifier counter (C17: "started with the counter shortly before the wrap")
+PokeId(n) ==
+  /\ nextId' = n
+  /\ stim' = [op |-> "pokeid", v |-> n] /\ fx' = <<>>
+  /\ UNCHANGED <<nd, sess, conn, timers, now>>
 
 Idle(dt) ==
   /\ dt > 0 /\ (IF timers = {} THEN TRUE ELSE now + dt <= MinAt)
